@@ -141,7 +141,10 @@ CHECKS = {
  'C16': dict(
   text='Assume/guarantee decomposition on the real code: (1) dict MailboxData.update_selected(wait_on) started on a real asyncio loop from '
        'change logs produced by <= 2 (quick) / 3 (thorough) mutations with the idler\'s consumed position a symbolic integer 0..highest (or '
-       'never synced): behind => it completes without a further signal, proved per path by z3; (2) each mutator (append, update, delete, '
+       'never synced): behind => it completes without a further signal, proved per path by z3; (1b) histories of <= 3 (quick) / 4 (thorough) '
+       'mutators (9 kinds, incl. repeated flag changes of one message) from a symbolic UID counter and a symbolic change-log start, the idler '
+       'consuming the log at any point and the rest landing while it is not parked: a stale view => the re-armed wait completes without a '
+       'further signal and the view then equals the mailbox; (2) each mutator (append, update, delete, '
        'copy-in, move-out, claim_recent) sets a listener registered with or_event; (3) the diff after wake-up is C01/C02; (4) the real '
        'IMAPConnection.idle on a scripted transport with a symbolic line: DONE (any case, CR optional) => tagged OK, anything else => BAD, '
        'and the next command is served.',
